@@ -1314,13 +1314,11 @@ func stripSensitiveHeadersOnRedirect(req *Request, initialHost []byte, redirectU
 }
 
 // delHeaderAnyCase deletes the header whatever the case of its stored name.
-// With normalizing disabled names keep the caller's spelling and Del matches
-// them exactly, while on the wire 'authorization' is still Authorization.
+// Names stored while normalizing was disabled, or through SetCanonical, keep
+// the caller's spelling and Del matches them exactly, while on the wire
+// 'authorization' is still Authorization.
 func delHeaderAnyCase(h *RequestHeader, name string) {
 	h.Del(name)
-	if !h.disableNormalizing {
-		return
-	}
 	n := 0
 	for i := range h.h {
 		if caseInsensitiveCompare(h.h[i].key, s2b(name)) {
